@@ -4,6 +4,7 @@ package main
 // really serves.
 
 import (
+	"os"
 	"fmt"
 	"go/token"
 	"go/types"
@@ -564,6 +565,84 @@ func checkC05Server(p *Prog, r *Report, rSrc, rPins, rPort *Rule) {
 	for _, st := range p.storesToField(lF) {
 		c := fnName(st.Parent()) + ":Server.l"
 		rs := valueRoots(st.Val, nil)
+		/* The embedded net.Listener replaced by a pass-through wrapper
+		around itself (a counter of accepted connections). */
+		if len(rs) > 1 {
+			var keep []Root
+			for _, x := range rs {
+				if "alloc" == x.Kind && nil != x.V {
+					if in := unwrapPassThrough(p, x.V, "Accept"); in != x.V {
+						inner := valueRoots(in, nil)
+						if "" != os.Getenv("CRS_C05DEBUG") {
+							fmt.Fprintf(os.Stderr, "C05DEBUG alloc %s in=%s inner=%s\n", x.V.Name(), in.Name(), rootsString(inner))
+						}
+						same := 0 != len(inner)
+						for _, y := range inner {
+							if "alloc" == y.Kind && y.V == x.V {
+								continue /* the local it was put back into */
+							}
+							if "field" == y.Kind && nil != y.Base {
+								/* The embedded listener of the local which
+								holds Listen's result. */
+								if bal, isAl := resolveFree(y.Base).(*ssa.Alloc); isAl {
+									okBase, nb := true, 0
+									for _, bs := range storesTo(bal) {
+										nb++
+										for _, z := range valueRoots(bs.Val, nil) {
+											if !("call" == z.Kind && nil != listen && z.V.(*ssa.Call).Common().StaticCallee() == listen) {
+												okBase = false
+											}
+										}
+									}
+									if okBase && nb > 0 {
+										continue
+									}
+								}
+							}
+							if !("call" == y.Kind && nil != listen && y.V.(*ssa.Call).Common().StaticCallee() == listen) {
+								same = false
+							}
+						}
+						if same {
+							continue
+						}
+					}
+				}
+				/* The local the result was put into, one field of which
+				is then replaced by such a wrapper around itself. */
+				if al, isAl := x.V.(*ssa.Alloc); isAl && "alloc" == x.Kind {
+					nf, okAll := 0, true
+					for _, ref := range *al.Referrers() {
+						fa, isFA := ref.(*ssa.FieldAddr)
+						if !isFA {
+							continue
+						}
+						for _, r2 := range *fa.Referrers() {
+							st2, isSt := r2.(*ssa.Store)
+							if !isSt || st2.Addr != ssa.Value(fa) {
+								continue
+							}
+							nf++
+							in := stripConv(unwrapPassThrough(p, st2.Val, "Accept"), false)
+							ld, isLd := in.(*ssa.UnOp)
+							if !isLd || token.MUL != ld.Op || in == stripConv(st2.Val, false) {
+								okAll = false
+								continue
+							}
+							fa2, isFA2 := ld.X.(*ssa.FieldAddr)
+							if !isFA2 || fa2.X != ssa.Value(al) || fa2.Field != fa.Field {
+								okAll = false
+							}
+						}
+					}
+					if nf > 0 && okAll {
+						continue
+					}
+				}
+				keep = append(keep, x)
+			}
+			rs = keep
+		}
 		okk := 1 == len(rs) && "call" == rs[0].Kind && nil != listen && rs[0].V.(*ssa.Call).Common().StaticCallee() == listen
 		if okk && "New" == st.Parent().Name() {
 			rSrc.OK(c, posOf(st), "Server.l = sstls.Listen(...)")
@@ -685,7 +764,9 @@ func checkC05Server(p *Prog, r *Report, rSrc, rPins, rPort *Rule) {
 				return
 			}
 			ns++
-			rs := valueRoots(c.Args[1], nil)
+			/* A listener which only counts what it accepts is the
+			listener it wraps. */
+			rs := valueRoots(unwrapPassThrough(p, c.Args[1], "Accept"), nil)
 			if 1 == len(rs) && "param" == rs[0].Kind {
 				/* Handed down by the one caller of a private function. */
 				rs = valueRoots(p.resolveUp(rs[0].V), nil)
